@@ -171,8 +171,8 @@ def attach_function(c, chk):
         st = [e for e in p.stores('comment')]
         fl = [e for e in p.stores('flags')]
         okdup = dup and dup[0].args[0] == ('p', 'comment') and st and st[-1].val == dup[0].res
-        okflag = any(e.val[0] == 'bin' and e.val[1] == 'or' and ('c', 2048) in e.val for e in fl) or \
-            any(sym.mentions(e.val, lambda v: v == ('c', 2048)) for e in fl)
+        from .c01 import flag_store
+        okflag = any(flag_store(e, 2048) == 'set' for e in fl)
         if okdup and okflag:
             good += 1
         else:
